@@ -12,6 +12,8 @@ c_AORD == <<"a1", "a2">>
 c_TORD == <<"t1", "t2">>
 c_OORD == <<"o1", "u1", "o2", "o3">>
 c_VAL  == [o1 |-> 100, u1 |-> 0, o2 |-> 50, o3 |-> 0]
+\* o3 has no stake of its own; a staker that is not associated with it delegated 80 to it
+c_VALT == [o1 |-> 100, u1 |-> 0, o2 |-> 50, o3 |-> 80]
 c_EPOCH0 == [minute |-> 1, hour |-> 1]
 
 E(ev, a) == [ev |-> ev, a |-> a]
@@ -27,7 +29,9 @@ c_PREFIX_0 == {<<>>}
 \* generation prefixes: the prepared world, with and without a minimum self delegation that o2 misses
 c_PREFIX_GW == {<<Reg("a1", "t1", 0), In("o1", "a1"), In("o2", "a1"), Bls("o1"), Bls("o2"), Bls("o3"), TickE>>,
                 <<Reg("a1", "t1", 0), In("o1", "a1"), Bls("o1"), Bls("o2"), TickE>>,
-                <<Reg("a1", "t1", 60), In("o1", "a1"), Bls("o1"), Bls("o2"), Bls("o3"), TickE>>}
+                <<Reg("a1", "t1", 60), In("o1", "a1"), Bls("o1"), Bls("o2"), Bls("o3"), TickE>>,
+                \* ... and that o3 misses with its own stake (0) while its total value (80) exceeds it: refused
+                <<Reg("a1", "t1", 60), In("o1", "a1"), In("o3", "a1"), Bls("o1"), Bls("o3"), TickE>>}
 \* registry generation: from the empty state, and from a state in which a task with an accepted result exists
 c_PREFIX_GR == {<<>>,
                 <<Reg("a1", "t1", 0), In("o1", "a1"), Bls("o1"), Bls("o2"), TickE,
